@@ -45,3 +45,61 @@ pub fn apply(req: &Value) -> Value {
     }
     json!({"env": m, "input_unchanged": before == env})
 }
+
+fn os(v: &Value) -> std::ffi::OsString {
+    use std::os::unix::ffi::OsStringExt;
+    std::ffi::OsString::from_vec(v.as_array().unwrap().iter().map(|b| b.as_u64().unwrap() as u8).collect())
+}
+
+fn layer_env_bytes(entries: &Value) -> LayerEnv {
+    let mut le = LayerEnv::new();
+    for e in entries.as_array().unwrap() {
+        le.insert(scope_of(e["scope"].as_str().unwrap()), behavior_of(e["behavior"].as_str().unwrap()), os(&e["name"]), os(&e["value"]));
+    }
+    le
+}
+
+/// write(old) then write(new) into one layer dir, list the env files, read back and compare
+pub fn roundtrip(req: &Value) -> Value {
+    use std::os::unix::ffi::OsStrExt;
+    let tmp = tempfile::tempdir().unwrap();
+    let dir = tmp.path().join("n");
+    std::fs::create_dir_all(&dir).unwrap();
+    std::fs::write(dir.join("f"), "bystander").unwrap();
+    let lat = |b: &[u8]| b.iter().map(|c| *c as char).collect::<String>();
+    // what an earlier write left behind: env directories with a stale file each
+    for st in req["stale"].as_array().unwrap_or(&vec![]) {
+        let d = dir.join(st["dir"].as_str().unwrap());
+        std::fs::create_dir_all(&d).unwrap();
+        if st["file"].is_array() {
+            std::fs::write(d.join(os(&st["file"])), os(&st["content"]).as_bytes()).unwrap();
+        }
+    }
+    let new = layer_env_bytes(&req["new"]);
+    if let Err(e) = new.write_to_layer_dir(&dir) {
+        return json!({"write": format!("Err:{e}")});
+    }
+    let mut files = vec![];
+    fn walk(root: &std::path::Path, d: &std::path::Path, out: &mut Vec<Value>, lat: &dyn Fn(&[u8]) -> String) {
+        let mut ents: Vec<_> = std::fs::read_dir(d).unwrap().map(|e| e.unwrap().path()).collect();
+        ents.sort();
+        for p in ents {
+            if p.is_dir() {
+                walk(root, &p, out, lat);
+            } else {
+                let rel = p.strip_prefix(root).unwrap();
+                out.push(json!({"path": lat(rel.as_os_str().as_bytes()), "content": lat(&std::fs::read(&p).unwrap())}));
+            }
+        }
+    }
+    for d in ["env", "env.build", "env.launch"] {
+        if dir.join(d).is_dir() {
+            walk(&dir, &dir.join(d), &mut files, &lat);
+        }
+    }
+    let bystander = std::fs::read_to_string(dir.join("f")).unwrap_or_default();
+    match LayerEnv::read_from_layer_dir(&dir) {
+        Ok(back) => json!({"write": "Ok", "files": files, "bystander": bystander, "read": "Ok", "equal": back == new}),
+        Err(e) => json!({"write": "Ok", "files": files, "bystander": bystander, "read": format!("Err:{e}")}),
+    }
+}
